@@ -771,18 +771,50 @@ func poolCases(run *vh.Run, r *rand.Rand, backends []*backend) {
 			route.SetTable(t)
 			return tableURLs(t)
 		}
+		// every 8th history is about a backend that is down: its pooled connection sits in
+		// TransientFailure (not Shutdown) and is still the one connection of that backend
+		const deadURL = "grpc://127.0.0.1:1"
+		downHistory := i%8 == 0
+		class := "pool-history"
+		if downHistory {
+			class = "pool-backend-down"
+			has := false
+			for _, u := range us {
+				has = has || u == deadURL
+			}
+			if !has {
+				us = append(us, deadURL)
+			}
+		}
 		t0 := setTable(subset())
+		if downHistory {
+			t0 = setTable(append(subset(), deadURL))
+		}
 		nops := 3 + r.Intn(14)
 		var ops, obs, sample []string
 		bad := false
 		for k := 0; k < nops && !bad; k++ {
 			var got string = vh.None
 			before := pool.Snapshot()
-			switch x := r.Intn(10); {
+			x := r.Intn(10)
+			if downHistory && k < 3 {
+				x = 0
+			}
+			switch {
 			case x < 5:
 				u := us[r.Intn(len(us))]
+				if downHistory && (k < 3 || r.Intn(2) == 0) {
+					u = deadURL
+				}
 				pu, _ := url.Parse(u)
 				c, err := pool.Get(context.Background(), &route.Target{URL: pu})
+				if err == nil && c != nil && u == deadURL {
+					// let the refused connection attempt register before the next operation
+					dl := time.Now().Add(500 * time.Millisecond)
+					for c.GetState() != connectivity.TransientFailure && c.GetState() != connectivity.Shutdown && time.Now().Before(dl) {
+						time.Sleep(100 * time.Microsecond)
+					}
+				}
 				if err != nil || c == nil {
 					run.Violation(run.NextID(), fmt.Sprintf("pool.Get(%s) failed: %v", u, err), nil)
 					bad = true
@@ -849,7 +881,7 @@ func poolCases(run *vh.Run, r *rand.Rand, backends []*backend) {
 		if bad {
 			continue
 		}
-		run.Add("pool-history", vh.App("CPool", strsCoq(t0), vh.List(ops), vh.List(obs), vh.List(shut)),
+		run.Add(class, vh.App("CPool", strsCoq(t0), vh.List(ops), vh.List(obs), vh.List(shut)),
 			map[string]interface{}{"table0": t0, "ops": sample})
 	}
 }
